@@ -152,3 +152,8 @@ def ask_batched(drv, reqs, n=100):
     for i in range(0, len(reqs), n):
         out += drv.ask_many(reqs[i:i + n])
     return out
+
+
+def affine_fn(td):
+    """slice-wise worker function for the extended map stream: every leaf x -> 2*x + 1"""
+    return td.apply(lambda x: x * 2 + 1)
